@@ -168,8 +168,18 @@ pub fn c15_world(rng: &mut Rng, n: usize, anchor_idx: usize) -> (World, Vec<Req>
     }
     rng.shuffle(&mut groups);
     let mut root_reqs: Vec<Req> = Vec::new();
-    // wrap a version set into a requirement, possibly a union with the dead alternative
+    // wrap a version set into a requirement, possibly a union with the dead alternative, or a union with another
+    // version set of the same package that overlaps it (a candidate then occurs twice within one requirement)
+    let overlap_pool: Vec<Vec<u32>> = groups.clone();
     let wrap = |f: &mut Fam, rng: &mut Rng, vs: u32| -> Req {
+        if n >= 2 && rng.chance(1, 6) {
+            let mut other: Vec<u32> = rng.pick(&overlap_pool).clone();
+            if rng.chance(1, 2) {
+                other.truncate(rng.range(1, other.len()));
+            }
+            let ovs = f.vs(0, other);
+            return if rng.chance(1, 2) { f.union(vec![vs, ovs]) } else { f.union(vec![ovs, vs]) };
+        }
         if use_unions && rng.chance(1, 2) {
             if rng.chance(1, 2) {
                 f.union(vec![dead_vs, vs])
